@@ -119,6 +119,16 @@ func (e *emitter) bytes(n int) []byte {
 
 func (e *emitter) thorough() bool { return e.tier == "thorough" }
 
+// statsOut: side-channel measurements ("#stat name value" lines, no tab, ignored by the op parser)
+var statFns []func() []string
+
+func statsOut() (out []string) {
+	for _, f := range statFns {
+		out = append(out, f()...)
+	}
+	return
+}
+
 func main() {
 	if len(os.Args) < 2 {
 		names := []string{}
@@ -148,5 +158,8 @@ func main() {
 	w := bufio.NewWriterSize(out, 1<<20)
 	e := &emitter{w: w, rng: rand.New(rand.NewSource(*seed)), n: *n, tier: *tier, seed: *seed}
 	f(e)
+	for _, st := range statsOut() {
+		fmt.Fprintf(w, "#stat %s\n", st)
+	}
 	w.Flush()
 }
